@@ -15,7 +15,7 @@ TRUSTED_BASE = [
 ]
 ASSUMPTIONS = [
     "a secret is found if its bytes occur in a captured line verbatim, as the base64 token that carried it, or as the decoded user:password text",
-    "the TLS layer's own SNI log lines (core.rs before the session door) are covered by the scrub_sni theorem and the regenerated facts; the session door starts after the handshake",
+    "sessions through the real listener (TLS and QUIC) put the log lines of listen_tcp / on_new_tls_connection / quic_multiplexer under the capture as well",
 ]
 RULE = ("tunnel sessions over HTTP/1.1 and HTTP/2 with canaries in: the password of accepted credentials, the password of rejected credentials, a configured password "
         "never presented, a Bearer token, bytes >= 0x80, SNI credentials accepted and rejected; requests: CONNECT ip/name/no-port, _udp2, _check, GET/POST absolute; "
@@ -62,16 +62,20 @@ def gen_cases(rng, ctx):
                    bearer, b"snicreds-7e2a9c-canary", b"badcreds-51f0aa-canary"]
         names = ["configured password", "token of the configured credentials", "rejected password", "token of rejected credentials", "rejected password (right user)",
                  "token (right user, wrong password)", "Bearer token", "accepted SNI credentials", "rejected SNI credentials"]
-        for http2 in (0, 1):
+        # front: 0 = the door after the TLS handshake; 1 = the real listener over TLS; 3 = over QUIC + HTTP/3: the log lines of
+        # listen_tcp / on_new_tls_connection / the QUIC multiplexer (connection meta, SNI) are captured too
+        for http2, front in ((0, 0), (1, 0), (0, 1), (1, 1), (1, 3)):
             for acfg, sni in ((1, 0), (2, 1), (2, 2), (0, 0)):
-                toks = [[acfg, http2, sni, 1]]
+                if front and (i + acfg + sni + http2) % 2:
+                    continue
+                toks = [[acfg, http2, sni, 1, front]]
                 reqs = [req(1, b"@A", good, b"x"), req(1, b"@A", bad), req(1, b"@B", bad2), req(1, b"@A", b"Bearer " + bearer), req(6, b"http://@A/x", good),
                         req(1, b"localhost", good), req(1, b"_udp2", good, dgram()), req(1, b"_check", bad), req(7, b"http://@R/p", good, b"body"),
                         req(1, b"@A", b"Basic \xff" + base64.b64encode(b"u1:" + wrong)), req(6, b"http://_check/", good), req(1, b"@A", None)]
                 rng.shuffle(reqs)
                 for r in reqs[:rng.choice([4, 8, 12])]:
                     toks += r
-                wrap(1, needles, toks, "tunnel:auth%d-sni%d-h%d" % (acfg, sni, 2 if http2 else 1), names)
+                wrap(1, needles, toks, "tunnel:auth%d-sni%d-%s%s" % (acfg, sni, "h3" if front == 3 else "h%d" % (2 if http2 else 1), "-listener" if front else ""), names)
         authz = ("AUTHZ-%s-canary" % tag).encode()
         cookie = ("COOKIE-%s-canary" % tag).encode()
         pauth = ("PAUTH-%s-canary" % tag).encode()
